@@ -22,6 +22,106 @@ theorem keys_values_of_items (t : Val) :
 theorem getitem_paths (t : Val) (h : wf t = true) (p : Path) (v : Val) (hm : (p, v) ∈ items t) :
     getItem t p = .ok v := getItem_items t h p v hm
 
+/-- ... also on a tree of `dictattr` / `Dict` nodes, whose item access falls back to dotted paths for MISSING keys: whenever
+the plain walk finds a value (in particular for every listed path) the class-aware walk finds the same one -/
+theorem getitem_dotted_of_getitem (b : Bool) : ∀ (p : Path) (t : Val) (v : Val), getItem t p = .ok v →
+    getItemC b t p = .ok v
+  | [], t, v, h => by cases t <;> simpa [getItem, getItemC] using h
+  | k :: rest, .dict kvs, v, h => by
+      simp only [getItem] at h
+      simp only [getItemC]
+      cases hl : lookup k kvs with
+      | none => simp [hl, throw, throwThe, MonadExceptOf.throw] at h
+      | some w => simp only [hl] at h ⊢; exact getitem_dotted_of_getitem b rest w v h
+  | k :: rest, .cell _, v, h => by simp [getItem, throw, throwThe, MonadExceptOf.throw] at h
+  | k :: rest, .list _, v, h => by simp [getItem, throw, throwThe, MonadExceptOf.throw] at h
+  | k :: rest, .tuple _, v, h => by simp [getItem, throw, throwThe, MonadExceptOf.throw] at h
+
+theorem getitem_paths_any_class (b : Bool) (t : Val) (h : wf t = true) (p : Path) (v : Val) (hm : (p, v) ∈ items t) :
+    getItemC b t p = .ok v := getitem_dotted_of_getitem b p t v (getitem_paths t h p v hm)
+
+/-- for plain dicts the class-aware walk IS the plain walk -/
+theorem getitem_plain : ∀ (p : Path) (t : Val), getItemC false t p = getItem t p
+  | [], t => by cases t <;> rfl
+  | k :: rest, .dict kvs => by
+      simp only [getItemC, getItem, Bool.false_and, Bool.false_eq_true, if_false]
+      cases lookup k kvs with
+      | none => rfl
+      | some w => exact getitem_plain rest w
+  | k :: rest, .cell _ => rfl
+  | k :: rest, .list _ => rfl
+  | k :: rest, .tuple _ => rfl
+
+/-- `tree_get(t, path, default)` is `tree_getitem` with the default in place of every error -/
+theorem tree_get_spec (d : Val) : ∀ (p : Path) (t : Val),
+    treeGet t p d = match getItem t p with
+      | .ok v => v
+      | .error _ => d
+  | [], t => by cases t <;> rfl
+  | k :: rest, .dict kvs => by
+      simp only [treeGet, getItem]
+      cases lookup k kvs with
+      | none => rfl
+      | some w => exact tree_get_spec d rest w
+  | k :: rest, .cell _ => rfl
+  | k :: rest, .list _ => rfl
+  | k :: rest, .tuple _ => rfl
+
+/-- `tree_setitem(t, path, v)`: `ValueError` for an empty path, otherwise the path write `setKVs` — read back by
+`setitem_get`, framed by `setitem_frame` / `setitem_frame_deep` -/
+theorem tree_setitem_spec (kvs : List (String × Val)) (p : Path) (v : Val) (ig : List Val) :
+    treeSetItem kvs p v ig = if p = [] then .error .value else .ok (setKVs kvs p v ig) := by
+  cases p <;> simp [treeSetItem, throw, throwThe, MonadExceptOf.throw, pure, Except.pure]
+
+/-- FRAME at any depth: a path write changes nothing that can be read through a path `q` branching off `p` (some position
+holds different keys): every value of the tree outside the written path, at every depth, reads back as before -/
+theorem setitem_frame_deep (v : Val) (ig : List Val) : ∀ (p q : Path) (kvs : List (String × Val)) (w : Val),
+    (∃ i, i < p.length ∧ i < q.length ∧ p[i]? ≠ q[i]? ∧ p.take i = q.take i) →
+    getItem (.dict kvs) q = .ok w → getItem (.dict (setKVs kvs p v ig)) q = .ok w
+  | [], q, kvs, w, h, _ => by obtain ⟨i, hi, _⟩ := h; simp at hi
+  | k :: rest, [], kvs, w, h, _ => by obtain ⟨i, _, hi, _⟩ := h; simp at hi
+  | k :: rest, j :: qs, kvs, w, h, hr => by
+      obtain ⟨i, hip, hiq, hne, htk⟩ := h
+      by_cases e : j = k
+      · subst e
+        -- same head: the difference is further down
+        cases i with
+        | zero => simp at hne
+        | succ i =>
+          simp only [List.length_cons, Nat.add_lt_add_iff_right] at hip hiq
+          simp only [List.getElem?_cons_succ, List.take_succ_cons, List.cons.injEq, true_and] at hne htk
+          cases rest with
+          | nil => simp at hip
+          | cons k2 r2 =>
+            rw [setKVs_deep]
+            simp only [getItem, lookup_set, if_true]
+            simp only [getItem] at hr
+            cases hl : lookup j kvs with
+            | none => simp [hl, throw, throwThe, MonadExceptOf.throw] at hr
+            | some old =>
+              simp only [hl] at hr
+              cases old with
+              | dict s =>
+                have : subOf j kvs = s := by simp [subOf, hl]
+                rw [this]
+                exact setitem_frame_deep v ig (k2 :: r2) qs s w ⟨i, hip, hiq, hne, htk⟩ hr
+              | _ => cases qs with
+                | nil => simp at hiq
+                | cons q1 qr => simp [getItem, throw, throwThe, MonadExceptOf.throw] at hr
+      · have hj : (k :: rest).head? ≠ some j := by simp [Ne.symm e]
+        simp only [getItem, lookup_setKVs_other (k :: rest) kvs v ig j hj]
+        simpa [getItem] using hr
+
+/-- the branching hypothesis is satisfiable: `a.b` and `a.c` part at position 1; writing `a.b` keeps `a.c` -/
+example : ∃ i, i < ["a", "b"].length ∧ i < ["a", "c"].length ∧ ["a", "b"][i]? ≠ ["a", "c"][i]? ∧
+    ["a", "b"].take i = ["a", "c"].take i := ⟨1, by decide, by decide, by decide, by decide⟩
+example : getItem (.dict (setKVs [("a", .dict [("c", .cell (.int 1))])] ["a", "b"] (.cell (.int 2)) [])) ["a", "c"] =
+    .ok (.cell (.int 1)) := rfl
+-- the dotted fallback only matters for unlisted paths: `tree_getitem(dictattr(a = dictattr(b = 1)), ['a.b'])` is 1, a dict
+-- raises KeyError
+#guard (match getItemC true (.dict [("a", .dict [("b", .cell (.int 1))])]) ["a.b"] with | .ok (.cell (.int 1)) => true | _ => false)
+#guard (match getItemC false (.dict [("a", .dict [("b", .cell (.int 1))])]) ["a.b"] with | .error .key => true | _ => false)
+
 /-- path insertion creating branches on demand: what is written at a path is read back there … -/
 theorem setitem_get (kvs : List (String × Val)) (p : Path) (v : Val) (hp : p ≠ []) :
     getItem (.dict (setKVs kvs p v [])) p = .ok v := getItem_setKVs p kvs v hp
